@@ -76,7 +76,9 @@ Definition check_op (op : opobs) : list Z :=
           match type_of_real a newv with Some t => t =? ty | None => false end &&
           match nodes_in a newv with Some l => nids_eqb (nondep l) (nondep path) | None => false end then [] else [1301]) ++
       (if others_unchanged [newv] && new_dummies_are [] [newv] then [] else [1302]) ++
-      (if added_at_tail newv (nondep path) && forms_unchanged_except (nondep path) then [] else [1303])
+      (if added_at_tail newv (nondep path) && forms_unchanged_except (nondep path) then [] else [1303]) ++
+      (* documented refusal: nodes not compatible with the vehicle type must yield Err *)
+      (if forallb (fun n => compatible_with_vehicle_type nw n ty) path then [] else [1304])
   | OSpawnDummy d ty newv =>
       match nodes_in b d with
       | Some L =>
@@ -108,7 +110,9 @@ Definition check_op (op : opobs) : list Z :=
           (if others_unchanged [v] && new_dummies_are [] [] then [] else [1332]) ++
           (if added_at_tail v fresh && removed_keeping_order v lost &&
               forallb (fun n => same_set_v (form_of a n) (form_of b n)) both &&
-              forms_unchanged_except (fresh ++ lost ++ both) then [] else [1333])
+              forms_unchanged_except (fresh ++ lost ++ both) then [] else [1333]) ++
+          (if match type_of_real b v with Some ty => forallb (fun n => compatible_with_vehicle_type nw n ty) path | None => false end
+           then [] else [1334])
       | None => [1330]
       end
   | ORemoveSeg v x y =>
@@ -161,7 +165,10 @@ Definition check_op (op : opobs) : list Z :=
                   (* a node the receiver already served: the provider leaves the formation, the receiver stays *)
                   forallb (fun n => same_set_v (form_of a n) (if pdummy then form_of b n else without_v p (form_of b n)) &&
                                     nodup_vid (form_of a n)) mvb &&
-                  forms_unchanged_except (mv ++ mvb ++ dr) then [] else [1354])
+                  forms_unchanged_except (mv ++ mvb ++ dr) then [] else [1354]) ++
+              (* documented refusal: a segment with a node not compatible with the receiver's type must yield Err *)
+              (if match type_of_real b r with Some ty => forallb (fun n => compatible_with_vehicle_type nw n ty) moved | None => true end
+               then [] else [1355])
           | _, _ => [1350]
           end
       | _, _ => [1350]
@@ -193,7 +200,9 @@ Definition check_op (op : opobs) : list Z :=
                             | true, false => form_of b n ++ [r]
                             | false, true => without_v p (form_of b n)
                             | true, true => form_of b n
-                            end)) moved && forms_unchanged_except moved then [] else [1364])
+                            end)) moved && forms_unchanged_except moved then [] else [1364]) ++
+                  (if match type_of_real b r with Some ty => forallb (fun n => compatible_with_vehicle_type nw n ty) moved | None => true end
+                   then [] else [1365])
               | None => [1360]
               end
           | _, _ => [1360]
